@@ -351,9 +351,27 @@ func (this *partition) insertValue(notificationId uuid.UUID, id uuid.UUID, value
 	return nil
 }
 
+// The metadata an update would store (the request's keys plus the stored keys it
+// does not mention) must itself be storable
+func validateMergedMetadata(metadata index.Metadata, stored index.Metadata) error {
+	merged := make(index.Metadata, len(metadata)+len(stored))
+	for k, v := range stored {
+		merged[k] = v
+	}
+	for k, v := range metadata {
+		merged[k] = v
+	}
+	return merged.Validate()
+}
+
 func (this *partition) updateValue(notificationId uuid.UUID, id uuid.UUID, value math.Vector, metadata index.Metadata) error {
 	vertex, err := this.index.GetVertex(id)
 	if err != nil {
+		this.notificator.Notify(notificationId, err, false)
+		return nil
+	}
+	if err := validateMergedMetadata(metadata, vertex.Metadata()); err != nil {
+		// Refuse before the item is touched: a failed re-insert below would lose it
 		this.notificator.Notify(notificationId, err, false)
 		return nil
 	}
@@ -404,6 +422,10 @@ func (this *partition) batchUpdateValue(notificationId uuid.UUID, items []*pb.Ba
 		}
 		vertex, err := this.index.GetVertex(id)
 		if err != nil {
+			errors[id] = err
+			continue
+		}
+		if err := validateMergedMetadata(item.GetMetadata(), vertex.Metadata()); err != nil {
 			errors[id] = err
 			continue
 		}
